@@ -324,3 +324,108 @@ Proof.
   apply (shex_refs_closed fa (scfg_of c ns) thr P C shapes); [|exact Hns|exact HS].
   exact (run_profile_refs_closed c g I P C ID Hfree HT HP).
 Qed.
+
+(** ** the input predicate of C05 *)
+From Shexer Require Import Model.C05Dom Spec.ShexcGrammar Proofs.WellFormedTokens Proofs.WellFormedLex
+  Proofs.WellFormedProofs.
+
+(** the class IRIs of the input: requested target classes, then the node
+    objects of the typing triples; without repetition *)
+Definition typing_objects (tau : str) (g : graph) : list str :=
+  flat_map (fun t => if str_eqb (tp t) tau then match to t with ON o => [nid o] | OL _ _ => [] end else []) g.
+
+Definition input_classes (c : rcfg) (g : graph) : list str :=
+  uniq_first ((match r_targets c with Some l => l | None => [] end) ++ typing_objects (r_tau c) g).
+
+(** a class IRI: a plain IRI (IRIREF characters, holds ':', does not start
+    with '%', its remainder after its namespace -- if the dictionary has one
+    -- is a PN_LOCAL), does not start with "@", and the label the shape gets
+    ([%<shapes-namespace + local name>]) is such an IRI too *)
+Definition class_ok (c : rcfg) (ns : nsdict) (cls : str) : bool :=
+  plain_ok ns cls && no_at cls && label_ok ns (shape_name (r_shapes_ns c) cls).
+
+(** a triple: its predicate is a plain IRI; the datatype of a literal object
+    is; the object of a typing triple is a class IRI and (inverse paths: the
+    subject is printed as a value of the typing property) its subject's
+    identifier is a plain IRI *)
+Definition triple_ok (c : rcfg) (ns : nsdict) (t : triple) : bool :=
+  plain_ok ns (tp t) &&
+  match to t with
+  | OL _ dt => plain_ok ns dt
+  | ON o => if str_eqb (tp t) (r_tau c)
+            then class_ok c ns (nid o) && (negb (r_inverse c) || plain_ok ns (nid (ts t)))
+            else true
+  end.
+
+Definition c05_input_ok (c : rcfg) (g : graph) : bool :=
+  valid_input c g &&
+  str_eqb (r_shapes_ns c) c_SHAPES_DEFAULT_NAMESPACE &&
+  match full_ns c with
+  | None => false
+  | Some ns =>
+    ns_ok ns && forallb (triple_ok c ns) g &&
+    forallb (class_ok c ns) (match r_targets c with Some l => l | None => [] end) &&
+    nodupb (map (shape_name (r_shapes_ns c)) (input_classes c g))
+  end.
+
+Lemma c05_input_ok_parts c g : c05_input_ok c g = true ->
+  valid_input c g = true /\ r_shapes_ns c = c_SHAPES_DEFAULT_NAMESPACE /\
+  exists ns, full_ns c = Some ns /\ ns_ok ns = true /\
+    (forall t, In t g -> triple_ok c ns t = true) /\
+    (forall t, In t (match r_targets c with Some l => l | None => [] end) -> class_ok c ns t = true) /\
+    NoDup (map (shape_name (r_shapes_ns c)) (input_classes c g)).
+Proof.
+  unfold c05_input_ok. intros H. apply andb_true_iff in H. destruct H as [H H3].
+  apply andb_true_iff in H. destruct H as [H1 H2]. apply str_eqb_eq in H2.
+  split; [exact H1|]. split; [exact H2|]. destruct (full_ns c) as [ns|]; [|discriminate].
+  exists ns. split; [reflexivity|].
+  apply andb_true_iff in H3. destruct H3 as [H3 H7]. apply andb_true_iff in H3. destruct H3 as [H3 H6].
+  apply andb_true_iff in H3. destruct H3 as [H4 H5]. rewrite forallb_forall in H5, H6.
+  split; [exact H4|]. split; [exact H5|]. split; [exact H6|]. apply nodupb_NoDup. exact H7.
+Qed.
+
+(** every class key of the profile is a class IRI of the input *)
+Lemma profile_keys_input c g I P C ID ce :
+  track (r_tau c) (mode_of c) (r_cap c) g = inl I ->
+  profile (pcfg_of c) I g = inl (P, C, ID) ->
+  In ce P -> In (fst ce) (input_classes c g).
+Proof.
+  intros HT HP Hce. unfold input_classes. rewrite uniq_first_first_occ. apply In_first_occ.
+  apply in_or_app.
+  destruct (profile_class_keys c g I P C ID HT HP ce Hce) as [H|(t & o & Hin & Htp & Hto & Hid)]; [left; exact H|].
+  right. unfold typing_objects. apply in_flat_map. exists t. split; [exact Hin|].
+  rewrite Htp, str_eqb_refl, Hto. left. exact Hid.
+Qed.
+
+Lemma listed_class_input c g I id cs cl :
+  track (r_tau c) (mode_of c) (r_cap c) g = inl I -> In (id, cs) I -> In cl cs ->
+  exists t o, In t g /\ tp t = r_tau c /\ to t = ON o /\ nid o = cl.
+Proof.
+  intros HT Hi Hcl. pose proof (track_classes _ _ _ _ _ HT) as Hall. rewrite Forall_forall in Hall.
+  destruct (Hall (id, cs) Hi cl Hcl) as (t & o & H1 & _ & H3 & H4 & H5). exists t, o. auto.
+Qed.
+
+(** ** A3. the labels are pairwise distinct *)
+Lemma NoDup_map_inj_in {A B} (f : A -> B) l x y :
+  NoDup (map f l) -> In x l -> In y l -> f x = f y -> x = y.
+Proof.
+  induction l as [|a l IH]; cbn; intros Hn Hx Hy E; [destruct Hx|].
+  inversion Hn as [|? ? Ha Hl]; subst.
+  destruct Hx as [->|Hx], Hy as [->|Hy]; auto.
+  - exfalso. apply Ha. rewrite E. apply in_map. exact Hy.
+  - exfalso. apply Ha. rewrite <- E. apply in_map. exact Hx.
+Qed.
+
+Theorem run_labels_NoDup fa c thr g ns shapes :
+  NoDup (map (shape_name (r_shapes_ns c)) (input_classes c g)) ->
+  run_shapes fa c thr g = inl (ns, shapes) -> NoDup (map sh_name shapes).
+Proof.
+  intros Hnd H. apply run_shapes_decompose in H. destruct H as (I & P & C & ID & _ & HT & HP & HS).
+  apply (shex_labels_NoDup fa (scfg_of c ns) thr P C shapes); [| |exact HS].
+  - exact (P_nodup c g I P C ID HT HP).
+  - cbn [x_shapes_ns scfg_of]. intros c1 c2 H1 H2 E.
+    apply in_map_iff in H1. destruct H1 as [ce1 [<- H1]]. apply in_map_iff in H2. destruct H2 as [ce2 [<- H2]].
+    apply (NoDup_map_inj_in (shape_name (r_shapes_ns c)) (input_classes c g)); [exact Hnd | | | exact E].
+    + exact (profile_keys_input c g I P C ID ce1 HT HP H1).
+    + exact (profile_keys_input c g I P C ID ce2 HT HP H2).
+Qed.
